@@ -224,3 +224,11 @@ def run(ctx):
             isinstance(n.ast, ast.Return)
     r4.check(ok, ctx.construct(ge), 'a sub-workflow does not delegate the '
              'environment lookup to its root execution', ctx.loc(ge))
+
+    # ---- R6 the post-commit queue that carries the hand-off -------------------
+    r6 = ctx.rule('R6', 'operations queued for after the commit (the '
+                  'child -> parent result among them) run exactly when the '
+                  'transaction that queued them returned normally',
+                  'GD/PAIR')
+    from mstatic.rules import txqueue
+    txqueue.queue_shape(ctx, r6)
